@@ -8,3 +8,9 @@ CASES += [
          old="         if ((arg1 != arg2) && arg2->hasValue()\n             && (arg1->compareValue( arg2) == 0))",
          new="         if (!arg2->hasValue() || (arg1 == arg2))\n            continue;\n         if (arg1->compareValue( arg2) == 0)"),
 ]
+
+CASES += [
+    dict(id='c03-format-branch-no-hasvalue', prop='C03', file='src/celma/prog_args/detail/typed_arg.hpp', expect='R7',
+         old="      mDestVar = boost::lexical_cast< T>( valCopy);\n   } else\n   {\n      mDestVar = boost::lexical_cast< T>( value);\n   } // end if\n   mHasValueSet = true;\n} // TypedArg< T>::assign",
+         new="      mDestVar = boost::lexical_cast< T>( valCopy);\n      return;\n   } // end if\n\n   mDestVar     = boost::lexical_cast< T>( value);\n   mHasValueSet = true;\n} // TypedArg< T>::assign"),
+]
